@@ -241,6 +241,8 @@ impl<T> Queue<T> {
                         // if no any more produce, this will be a dead loop
                         while pop_index >= self.tail.index.load(Ordering::Acquire) {
                             #[cfg(may_verif)]
+                            crate::verif::label("spmc.pop.wait_claimed", 0);
+                            #[cfg(may_verif)]
                             if crate::verif::spin_wait() {
                                 continue;
                             }
@@ -407,6 +409,8 @@ impl<T> Queue<T> {
                         // except for the ABA situation
                         // if no any more data pushed, this will be a dead loop
                         while end > self.tail.index.load(Ordering::Acquire) {
+                            #[cfg(may_verif)]
+                            crate::verif::label("spmc.bulk_pop.wait_claimed", 0);
                             #[cfg(may_verif)]
                             if crate::verif::spin_wait() {
                                 continue;
